@@ -960,6 +960,41 @@ async fn handle_new_connection_established(
         tracing::warn!(handle = core_handle, conn_uri = %endpoint_uri_from_event, "ViaSca received unexpected pre-existing ISocketConnection. Ignoring.");
       }
 
+      // The session may already have stopped (its ActorStopping overtook this command): there is
+      // nothing to register, but the loss still has to be reported and, for an outbound
+      // connection, retried - nobody else will ever notice it.
+      let stopped_early = {
+        let mut state = core_arc.core_state.write();
+        let early = &mut state.sessions_stopped_before_registration;
+        early
+          .iter()
+          .position(|(id, _)| *id == sca_handle_id)
+          .and_then(|i| early.remove(i))
+      };
+      if let Some((_, early_error)) = stopped_early {
+        tracing::debug!(handle = core_handle, conn_uri = %endpoint_uri_from_event, sca_actor_id = sca_handle_id, "Session stopped before it was registered.");
+        let mut state = core_arc.core_state.write();
+        state.send_monitor_event(SocketEvent::Disconnected {
+          endpoint: endpoint_uri_from_event.clone(),
+        });
+        let options = state.options.clone();
+        let retry = is_outbound_this_core_initiated
+          && options.reconnect_ivl.map_or(false, |d| !d.is_zero())
+          && early_error
+            .as_ref()
+            .map_or(false, |e| !crate::transport::tcp::is_fatal_connect_error(e));
+        if retry {
+          let base = options.reconnect_ivl.unwrap_or(std::time::Duration::from_millis(100));
+          let max = options.reconnect_ivl_max.unwrap_or(std::time::Duration::from_secs(60));
+          state
+            .reconnect_states
+            .entry(target_endpoint_uri_from_event)
+            .or_default()
+            .on_connection_failure(base, max);
+        }
+        return Ok(());
+      }
+
       let (tx_core_to_sca, rx_sca_from_core) =
         fibre::mpsc::bounded_async::<FrameBatch>(core_arc.core_state.read().options.sndhwm.max(1));
 
